@@ -4,6 +4,7 @@ sub-agents that make BENIGN changes: realistic edits near a property's anchors t
 does not constrain and keep the property true. Used to test that the checks raise no false alarm."""
 import sys, os, json, subprocess, shutil
 rnd = sys.argv[1]
+FOCUS = os.environ.get('FOCUS') or 'Spread them: one should touch the central mechanism named in the anchors, one a helper it depends on, one something only loosely related.'
 ids = sys.argv[2:] or [f"C{i:02d}" for i in range(1, 18)]
 props = {json.loads(l)["id"]: json.loads(l) for l in open("/verif/properties.jsonl")}
 for pid in ids:
@@ -17,7 +18,7 @@ for pid in ids:
 
 A semantic property the crate satisfies is in {wt}/PROPERTY.json (fields: statement, quantifier, why_tests_cant, anchors). Read it carefully, then read the code it is anchored in.
 
-YOUR TASK: produce THREE independent BENIGN changes A, B, C (each relative to a clean checkout, not stacked) to the crate's source under src/, in or near the code the property is anchored in. A benign change is a realistic edit a maintainer might make - a refactoring, an optimisation, a different internal representation or algorithm, different wording or structure of an error message, a different (but still valid) hash function or iteration order, accepting or rejecting inputs that lie OUTSIDE the property's quantifier (e.g. a new lenient spelling, a stricter check on malformed input), different Debug output, a renamed private item, reordered match arms, a changed capacity or buffer strategy - that CHANGES SOME OBSERVABLE BEHAVIOUR THE PROPERTY DOES NOT CONSTRAIN but keeps the property, exactly as stated and for everything in its quantifier, TRUE. Make the changes as bold as you can while staying benign: the more behaviour changes without violating the statement, the better. Spread them: one should touch the central mechanism named in the anchors, one a helper it depends on, one something only loosely related. The crate must still compile and the existing test suite (unedited) must still pass completely. Do not touch Cargo.toml features, the `verif_hooks` code (src/verif_hooks.rs and the cfg(feature = "verif_hooks") items) or any existing test.
+YOUR TASK: produce THREE independent BENIGN changes A, B, C (each relative to a clean checkout, not stacked) to the crate's source under src/, in or near the code the property is anchored in. A benign change is a realistic edit a maintainer might make - a refactoring, an optimisation, a different internal representation or algorithm, different wording or structure of an error message, a different (but still valid) hash function or iteration order, accepting or rejecting inputs that lie OUTSIDE the property's quantifier (e.g. a new lenient spelling, a stricter check on malformed input), different Debug output, a renamed private item, reordered match arms, a changed capacity or buffer strategy - that CHANGES SOME OBSERVABLE BEHAVIOUR THE PROPERTY DOES NOT CONSTRAIN but keeps the property, exactly as stated and for everything in its quantifier, TRUE. Make the changes as bold as you can while staying benign: the more behaviour changes without violating the statement, the better. {FOCUS} The crate must still compile and the existing test suite (unedited) must still pass completely. Do not touch Cargo.toml features, the `verif_hooks` code (src/verif_hooks.rs and the cfg(feature = "verif_hooks") items) or any existing test.
 
 For each change also write a small integration test {wt}/tests/benign_{pid}_a.rs (resp. _b.rs, _c.rs), using only the public API (`use narsese::...`), that PASSES with your change and exercises the property on a handful of inputs around the code you touched (so that you have checked yourself that the property still holds there), and that, if possible, also asserts the behaviour that changed (so it FAILS on a clean checkout; say in the report whether it does).
 
